@@ -473,10 +473,20 @@ func c13Paths(dir string) map[string]string {
 
 // c13Start builds a new "process": hash-prefix filter and storage with their
 // initial refreshes, in the order cmd uses.
+// c13SvcFresh: the blocked-service index and the safe-search list are considered fresh for an hour (so a
+// round does not download them again): then a round whose context ends while a rule list is being
+// downloaded (fault "cancel"; in production the context and each download share one time-out) still
+// reaches the end of the refresh.
+var c13SvcFresh bool
+
 func c13Start(dir string, urls func(list string) *url.URL, timeout time.Duration) (p *c13Proc, err error) {
 	logger := slog.New(slog.NewTextHandler(io.Discard, nil))
 	errs := &c13Errs{}
 	const stale = 1 * time.Nanosecond
+	svcStale := stale
+	if c13SvcFresh {
+		svcStale = time.Hour
+	}
 	paths := c13Paths(dir)
 	if err = os.MkdirAll(filepath.Dir(paths["hp"]), 0o700); err != nil {
 		return nil, err
@@ -498,7 +508,7 @@ func c13Start(dir string, urls func(list string) *url.URL, timeout time.Duration
 		BaseLogger: logger, Logger: logger,
 		BlockedServices: &ConfigBlockedServices{
 			IndexURL: urls("sidx"), IndexMaxSize: c13MaxSize * datasize.B, IndexRefreshTimeout: timeout,
-			IndexStaleness: stale, ResultCacheCount: 100, ResultCacheEnabled: true, Enabled: true,
+			IndexStaleness: svcStale, ResultCacheCount: 100, ResultCacheEnabled: true, Enabled: true,
 		},
 		Custom:     &ConfigCustom{CacheCount: 10},
 		HashPrefix: &ConfigHashPrefix{Dangerous: hp},
@@ -509,7 +519,7 @@ func c13Start(dir string, urls func(list string) *url.URL, timeout time.Duration
 		},
 		SafeSearchGeneral: &ConfigSafeSearch{
 			URL: urls("ss"), ID: filter.IDGeneralSafeSearch, MaxSize: c13MaxSize * datasize.B, ResultCacheTTL: time.Hour,
-			RefreshTimeout: timeout, Staleness: stale, ResultCacheCount: 100, Enabled: true,
+			RefreshTimeout: timeout, Staleness: svcStale, ResultCacheCount: 100, Enabled: true,
 		},
 		SafeSearchYouTube: &ConfigSafeSearch{ID: filter.IDYoutubeSafeSearch, Enabled: false},
 		CacheManager:      agdcache.EmptyManager{},
@@ -793,11 +803,12 @@ func c13RunBeh(t *testing.T, out *vhOut, nw *c13Net, rng *rand.Rand, id int, b c
 		f0[l] = "refused"
 	}
 	nw.set(ver, f0, variants, false)
+	c13SvcFresh = id%3 == 2
 	p, err := c13Start(dir, nw.url, nw.timeout)
 	if err != nil {
 		t.Fatalf("behaviour %d: first start failed: %v", id, err)
 	}
-	out.Emit(map[string]any{"ev": "Reset", "beh": id, "absent": b.Absent})
+	out.Emit(map[string]any{"ev": "Reset", "beh": id, "absent": b.Absent, "fresh": c13SvcFresh})
 	emitProbe := func(applied bool, extra map[string]any) {
 		served, sd := c13Probe(t, p, ver["ridx"]+1)
 		disk, dd := c13Disk(dir, nw.known)
